@@ -35,12 +35,12 @@ type encRun struct {
 }
 
 type encOpts struct {
-	cells    map[string]constant.Value                                         // initial tracked cells (by access path suffix, e.g. "last")
-	inline   func(callee *ssa.Function) bool                                   // which in-module callees to analyse in context
-	branch   func(s *TSCtx, iff *ssa.If, taken bool) string                    // extra fact recorded on a branch ("" = none)
-	assume   func(v ssa.Value, fr *Frame) (constant.Value, bool)               // extra assumptions
-	callEv   func(s *TSCtx, ci ssa.CallInstruction) (string, bool)             // custom event for a call
-	cellName func(c *Ctx, addr ssa.Value, fr *Frame) (string, bool)            // override cell naming
+	cells    map[string]constant.Value                              // initial tracked cells (by access path suffix, e.g. "last")
+	inline   func(callee *ssa.Function) bool                        // which in-module callees to analyse in context
+	branch   func(s *TSCtx, iff *ssa.If, taken bool) string         // extra fact recorded on a branch ("" = none)
+	assume   func(v ssa.Value, fr *Frame) (constant.Value, bool)    // extra assumptions
+	callEv   func(s *TSCtx, ci ssa.CallInstruction) (string, bool)  // custom event for a call
+	cellName func(c *Ctx, addr ssa.Value, fr *Frame) (string, bool) // override cell naming
 }
 
 // scalarCell: addr denotes a bool/integer struct field reachable from the root receiver; name = access path.
